@@ -1,6 +1,6 @@
 (* C08 model driver. stdin: "<id>\t<op> <kind_a> <a> <kind_b> <b>", kind = I (integer, decimal)
    | F (float, decimal bits of the IEEE-754 binary64 pattern). stdout: "<id>\t<result of every
-   path>", all five paths must agree (proved); prints "I <z>" | "F <bits>" | "B true|false" |
+   path>", all six paths (generic, by_name, fold, typed Int/Float, x_ints) must agree (proved); prints "I <z>" | "F <bits>" | "B true|false" |
    "err <c>" | "paths-disagree ...". Float arithmetic instantiates the model's Section
    variables with OCaml's native IEEE doubles. *)
 open C06_Int
